@@ -20,7 +20,8 @@ RULE = ('complete enumeration of the value domains (52 cards, 52x52 card pairs, 
         'x 4 vul x 5 declarers) and, for every parser, every string the builders can produce plus every string of length <= 2 '
         '(cards, ranks) / <= 3 (bids) over an adversarial ASCII alphabet, the accepted vulnerability spellings and near-misses. '
         'distinct = distinct op lines; all non-trivial (each evaluates a converter).')
-TRUSTED = ['the value domains are enumerated completely; parsers are compared on the stated finite string sets only '
+TRUSTED = ['the MiniPy semantics (Model/MiniPy.lean: value semantics, no aliasing) and the code translator (harness/translate_py.py), validated on every run by executing the translated program next to the real code (counters translated_*)',
+           'the value domains are enumerated completely; parsers are compared on the stated finite string sets only '
            '(ASCII; int() of non-ASCII digits is outside the modelled domain)']
 ASSUMPTIONS = ['CPython Enum lookup by name/value, str slicing, int() on ASCII digits']
 
